@@ -16,7 +16,7 @@ from .util import sha, short, mix64
 PROP = "C13"
 LEVEL = "exploration"
 QUICK_JOBS = 2400
-THOROUGH_JOBS = 120000
+THOROUGH_JOBS = 100000
 WALL_CAP = {"quick": 240.0, "thorough": 3300.0}
 READ_ATTRS_COMMON = ["pair", "tabulation", "species", "potential_form", "table_form"]
 FILTERED_SECTIONS = ("Pair", "EAM-Embed", "EAM-Density")
